@@ -1,0 +1,15 @@
+//go:build verif
+
+/*
+ * Verification export (bloom filter, property C19): add-only accessor for the bloom filter
+ * bytes stored in a table's index. Compiled only with `-tags verif`.
+ */
+
+package table
+
+// VerifBloomFilter returns a copy of the bloom filter bytes of the table index (nil if the
+// table was built without a filter) and the value of hasBloomFilter.
+func (t *Table) VerifBloomFilter() ([]byte, bool) {
+	bf := t.fetchIndex().BloomFilterBytes()
+	return append([]byte(nil), bf...), t.hasBloomFilter
+}
